@@ -108,9 +108,25 @@ def run(chk):
         rets = [n for n in walk(f["body"]) if n.get("k") == "return" and n.get("e") is not None]
         ok = False
         why = "the converted value is not pushed to the saves"
+        helper_call = None
+        if not pushes:
+            # the push may live in a small helper `keep(t_saves, value)`: if (saves.enabled) saves.saves.push_back(value);
+            for n in walk(f["body"]):
+                if n.get("k") == "call" and n.get("fn") is not None and len(n.get("args") or []) == 2:
+                    h = prog.fn_by_id(f, n["fn"])
+                    if h is None or not h.get("body") or h is f:
+                        continue
+                    hp = [x for x in walk(h["body"]) if x.get("k") == "call" and x.get("name") in ("push_back", "emplace_back") and x.get("obj") is not None and
+                          "saves" in expr_str(prog, h, x["obj"])]
+                    if len(hp) == 1 and strip_casts(hp[0]["args"][0]).get("rk") == "param":
+                        hflow = FnFlow(h)
+                        if any("enabled" in expr_str(prog, h, c) and t for c, t in hflow.facts(hp[0])):
+                            helper_call = (n, strip_casts(n["args"][strip_casts(hp[0]["args"][0]).get("idx")]))
+        if helper_call is not None:
+            pushes = [helper_call[0]]
         if len(pushes) == 1:
-            pv = strip_casts(pushes[0]["args"][0])
-            guarded = any("enabled" in expr_str(prog, f, c) and t for c, t in flow.facts(pushes[0]))
+            pv = strip_casts(pushes[0]["args"][0]) if helper_call is None else helper_call[1]
+            guarded = helper_call is not None or any("enabled" in expr_str(prog, f, c) and t for c, t in flow.facts(pushes[0]))
             same = [r for r in rets if strip_casts(r["e"]).get("vid") is not None and strip_casts(r["e"]).get("vid") == pv.get("vid")]
             conv_init = None
             for d in walk(f["body"]):
